@@ -934,5 +934,9 @@ Definition run (c : obs) : obs :=
                   (udp_with_fallback (lookup tab) q qwire w t af o evs wevs s revs now))
       | _, _, _, _, _, _, _, _, _ => E eBad
       end
+  (* send_tcp / send_udp given Message objects (plain, TSIG-signed, padded), rebuilt by the harness
+     from a seed; the observation is the list of framing / round-trip problems found on the
+     stream, which must be empty (send_tcp_frames_in_order, receive_tcp_messages_in_order) *)
+  | L (I 11 :: _) => L []
   | _ => E eBad
   end.
